@@ -38,6 +38,9 @@ def shards(tier, seed):
         for i in range(8):
             out.append({"id": "sched1-%d" % i, "kind": "sched1", "pairs": pairs[i::8], "maxpoints": 260})
         out.append({"id": "sched2", "kind": "sched2", "pairs": fixed[:4], "stride": 16})
+        # two preemptions, both threads building from the *same* argument objects (a constant descriptor list of the application)
+        out.append({"id": "sched2-shared-4", "kind": "sched2", "pairs": [("ExtendedCopy4+id", "ExtendedCopy4+id")], "stride": 40})
+        out.append({"id": "sched2-shared-5", "kind": "sched2", "pairs": [("ExtendedCopy5+id", "ExtendedCopy5+id"), ("PersistentReserveOut+id", "PersistentReserveOut+id")], "stride": 40})
         for i in range(4):
             out.append({"id": "sched-data-%d" % i, "kind": "sched1", "pairs": DATA_PAIRS[i::4], "maxpoints": 200})
         cold = [("ExtendedCopy5", "ExtendedCopy5"), ("ExtendedCopy4", "ExtendedCopy4"), ("PersistentReserveOut", "PersistentReserveOut"),
@@ -240,6 +243,7 @@ def run(shard, ctx):
     elif kind == "hashseeds":
         hash_seed_runs(ctx, shard)
         after_fault_in_other_thread(ctx, S)
+        reentrant_in_one_thread(ctx, S, base, args)
     elif kind == "cold":
         cold_runs(ctx, shard)
 
@@ -986,6 +990,85 @@ def after_fault_in_other_thread(ctx, S):
         if got.get(name) != solo[name]:
             ctx.fail("C09:differs_after_refusal_in_other_thread.%s" % name.split(":")[0], "%s gives another result after another thread had requests refused" % name, {"job": name})
             break
+
+
+def reentrant_in_one_thread(ctx, S, base, args):
+    """code that runs *inside* the building of a command, in the same thread -- a signal handler (a watchdog polling the unit), a
+    finaliser or weak-reference callback -- builds a command of its own through the library.  Emulated with a line-event
+    callback that, at the k-th library line of program A, runs program B to completion and returns: A's result is what A gets
+    alone, B's what B gets alone; for every k (strided)"""
+    import sys
+
+    from vmon import repo
+
+    mon = sys.monitoring
+    TOOL = 4
+    try:
+        mon.use_tool_id(TOOL, "vmon-reentry")
+    except ValueError:
+        pass
+    state = {"n": 0, "at": None, "inner": None, "busy": False, "inner_result": None}
+
+    def on_line(code, lineno):
+        if not repo.is_lib_file(code.co_filename):
+            return mon.DISABLE
+        if state["busy"] or state["at"] is None:
+            return None
+        state["n"] += 1
+        if state["n"] == state["at"]:
+            state["busy"] = True
+            try:
+                state["inner_result"] = state["inner"]()
+            except Exception as e:  # noqa: BLE001
+                state["inner_result"] = "raises %s" % type(e).__name__
+            finally:
+                state["busy"] = False
+        return None
+
+    mon.register_callback(TOOL, mon.events.LINE, on_line)
+    pairs = [("Read16", "ReadCapacity16"), ("Read10", "Inquiry"), ("Write16", "TestUnitReady"), ("ExtendedCopy4", "ExtendedCopy4"), ("PersistentReserveOut", "Read16"),
+             ("ModeSense10", "ModeSelect6"), ("Inquiry", "Read16"), ("ReadCapacity16", "GetLBAStatus")]
+    try:
+        for A, B in pairs:
+            if base.get(A) is None or base.get(B) is None:
+                continue
+            progA, progB = program(S, A, args), program(S, B, args)
+            # how many library lines A takes
+            state.update(n=0, at=-1, inner=None)
+            mon.set_events(TOOL, mon.events.LINE)
+            try:
+                progA()
+            finally:
+                mon.set_events(TOOL, 0)
+            total = state["n"]
+            step = max(1, total // 60)
+            for k in range(1, total + 1, step):
+                state.update(n=0, at=k, inner=progB, inner_result=None)
+                mon.set_events(TOOL, mon.events.LINE)
+                try:
+                    try:
+                        outer = progA()
+                    except Exception as e:  # noqa: BLE001
+                        outer = "raises %s" % type(e).__name__
+                finally:
+                    mon.set_events(TOOL, 0)
+                    state["at"] = None
+                ctx.case(("reentrant", A, B, k), True)
+                ctx.count("reentrant_runs")
+                wit = {"outer": A, "inner": B, "inner_ran_at_library_line_event": k, "of": total}
+                if outer != base[A]:
+                    ctx.fail("C09:reentrant.outer_differs_from_solo", "%s, interrupted at its %d-th library line by code that built %s in the same thread, gives another result than alone" % (A, k, B), wit)
+                    break
+                if state["inner_result"] is not None and state["inner_result"] != base[B]:
+                    ctx.fail("C09:reentrant.inner_differs_from_solo", "%s built inside the building of %s (at its %d-th library line) gives another result than alone" % (B, A, k), wit)
+                    break
+    finally:
+        mon.set_events(TOOL, 0)
+        mon.register_callback(TOOL, mon.events.LINE, None)
+        try:
+            mon.free_tool_id(TOOL)
+        except Exception:  # noqa: BLE001
+            pass
 
 
 def hash_seed_runs(ctx, shard):
